@@ -13,7 +13,7 @@ RULE = ('every listed elementary function x a finite argument lattice x precisio
         'rigorous ball arithmetic (oracle/refball.py) escalated until the comparison with the stated bound 2^(4-p) is decided '
         '(per part for exp/log/sin/cos/sinh/cosh, relative to the larger part otherwise); real arguments inside the real domain '
         'must give real results, outside it the principal complex value.  Lattice: +-m*2^k, m in {1,3/2,1+2^-j,2-2^-j}, k from -2p-8 '
-        'to 40 (stepped), p-bit neighbours of n*pi/2, 1 +- 2^-j, 8 complex directions x moduli, near-axis points.  non-trivial = '
+        'to 40 (stepped), p-bit neighbours of n*pi/2, 1 +- 2^-j, n/2 +- 2^-j with j up to 2p+40 (mantissas much longer than p), 8 complex directions x moduli, near-axis points.  non-trivial = '
         'finite non-zero reference value; cases are duplicate-free by construction (set of (fn, argument) per task)')
 ASSUMPTIONS = ['oracle/refball.py error bounds (self-tested, cross-validated against mpmath at +200 bits in development)',
                'branch-cut conventions for points exactly on cuts follow the formulas in refball.F (Kahan-style, continuity from the side mpmath documents)']
@@ -61,6 +61,18 @@ def real_args(p, step, seed):
             out.append(mk(s, (1 << j) + 1, -j))
             out.append(mk(s, (1 << j) - 1, -j))
     out += [mk(0, 1, 200), mk(1, 1, 200), mk(0, 10 ** 15 + 1, 0)]
+    return out
+
+
+def long_near_half_integers(p):
+    """n/2 +- 2^-j with mantissas much longer than the working precision (arguments built at a higher precision): reductions by the nearest
+    (half-)integer must keep enough bits for the tiny remainder"""
+    out = []
+    for n in (1, 2, 3, 6, 7, 21, -5):
+        for j in (p + 5, p + 30, 2 * p + 40, 200):
+            for s in (1, -1):
+                num = n * (1 << (j - 1)) + s          # n/2 + s*2^-j  over 2^j
+                out.append(mk(1 if num < 0 else 0, abs(num), -j))
     return out
 
 
@@ -279,7 +291,8 @@ def check_one(acc, mp, name, raws, p, nargs):
     acc.nontrivial += 1
     if status == 'viol':
         acc.violation(['acc', name, raws, p], '%s(%s) at prec %d = %s: error exceeds 2^(4-p) by ~%d bits (%s/%s/%s)' % (name, raws, p, got, lost, kind, mc, ratio),
-                      fn=name, kind='accuracy', arg=kind, mag=mc, lostpct=min(130, 100 * lost // p))
+                      fn=name, kind='accuracy', arg=kind, mag=mc, lostpct=min(130, 100 * lost // p),
+                      **({'longarg': True} if any(c[3] > p + 4 for z in raws for c in z) else {}))
 
 
 def t_f1(task):
@@ -289,7 +302,7 @@ def t_f1(task):
     mp.prec = p
     try:
         seen = set()
-        rargs = real_args(p, 2 if th else 5, seed) + near_pi_args(p)
+        rargs = real_args(p, 2 if th else 5, seed) + near_pi_args(p) + long_near_half_integers(p)
         cargs = complex_args(p, 4 if th else 9, seed)
         for t in rargs:
             if t in seen:
